@@ -37,6 +37,10 @@ RULE = ('Per payload size (0, 1, block-1, block, block+1, 2*block, 3*block+7 '
         'Non-trivial = at least one fault that fires strictly inside a transfer '
         'or decompression (after the first byte was written, before the last).')
 ASSUMPTIONS = [
+    'disk-full model (download and decompression): the operating-system level write that hits '
+    'the limit stores a prefix and returns the short count, later writes raise '
+    'ENOSPC; open() is emulated faithfully (io.BufferedWriter over that raw file '
+    'unless buffering=0 is requested)',
     'crash model: exception (BaseException subclass) at the fault point, plus '
     'a forked child calling os._exit there (no unwinding, no flush); '
     'reordering of distinct files by power loss is not modelled',
@@ -273,12 +277,48 @@ class LzmaProxy:
     return getattr(real_lzma, name)
 
 
+class DiskFullFileIO(io.FileIO):
+  """The operating-system level of a file being written while the disk fills up:
+  the write that hits the limit stores only part of its bytes and RETURNS that
+  smaller count (a short write, no exception); every later write fails with
+  ENOSPC.  Python's buffered writer -- what open() returns by default -- retries
+  the rest and so surfaces the error; a raw, unbuffered file hands the short
+  count to its caller."""
+
+  def __init__(self, path, plan):
+    super().__init__(path, 'w')
+    self._plan = plan
+    self._full = False
+
+  def write(self, data):
+    p, f = self._plan, self._plan.fault
+    if self._full:
+      raise OSError(28, 'No space left on device')
+    if f['site'] == 'disk_full' and not p.fired and p.bytes_written + len(data) > f['byte']:
+      keep = max(0, f['byte'] - p.bytes_written)
+      n = super().write(bytes(data)[:keep]) if keep else 0
+      p.bytes_written += n
+      p.fired = True
+      self._full = True
+      if keep == 0:
+        raise OSError(28, 'No space left on device')
+      return n
+    n = super().write(data)
+    p.bytes_written += n
+    return n
+
+
 def install(mod, plan, payload=b''):
   mod.requests = FakeRequests(payload, plan)
   mod.os = OsProxy(plan)
   mod.lzma = LzmaProxy(plan)
 
   def fake_open(path, mode='r', *a, **k):
+    if 'w' in mode and plan.fault['site'] == 'disk_full':
+      assert 'b' in mode
+      buffering = k.get('buffering', a[0] if a else -1)
+      raw = DiskFullFileIO(path, plan)
+      return raw if buffering == 0 else io.BufferedWriter(raw)
     f = open(path, mode, *a, **k)
     if 'w' in mode:
       return FileProxy(f, plan)
@@ -434,6 +474,9 @@ def download_faults(size, modes=('error', 'crash')):
         out.append({'site': 'write', 'index': k, 'prefix': prefix, 'mode': mode})
   for o in sorted(x for x in offs if x < size):
     out.append({'site': 'net', 'kind': 'eof', 'byte': o, 'mode': 'error'})
+  # the disk fills up after `byte` bytes of the downloaded file
+  for o in sorted(x for x in offs if x < size):
+    out.append({'site': 'disk_full', 'byte': o, 'mode': 'error'})
   return out
 
 
@@ -461,6 +504,8 @@ def fault_inside(case_fault, size, unit):
     return size > 0 and 0 < f['index'] <= (size + unit - 1) // unit
   if f['site'] in ('truncate', 'flip'):
     return size > 0
+  if f['site'] == 'disk_full':
+    return 0 < f['byte'] < size
   return False
 
 
@@ -638,6 +683,12 @@ def decompress_faults(size):
     for k in range(nb):
       for prefix in ('none', 'half', 'allbut1'):
         out.append({'site': 'write', 'index': k, 'prefix': prefix, 'mode': mode})
+  # the disk fills up after `byte` bytes of output (block boundaries, inside the
+  # first, a middle and the LAST copy block, one byte before the end)
+  cuts = {0, 1, size // 2, max(0, size - 1), max(0, size - COPY // 2)}
+  cuts |= {k * COPY for k in range(nb)} | {k * COPY + 1 for k in range(nb)}
+  for b in sorted(c for c in cuts if 0 <= c < size):
+    out.append({'site': 'disk_full', 'byte': b, 'mode': 'error'})
   for num in range(0, 17):
     out.append({'site': 'truncate', 'num': num, 'drop': 1})
   for num in range(0, 16, 3):
